@@ -263,15 +263,21 @@ fn run(fail: [bool; 12], stale: bool, app_regions: usize, skip_unreferenced: boo
             memory: MDLocationDescriptor { data_size: kani::any(), rva: kani::any() },
         });
         cfg.crashing_thread_context = CrashingThreadContext::CrashContext(MDLocationDescriptor { data_size: kani::any(), rva: kani::any() });
+        // a principal mapping resolved by an earlier dump (e.g. against another target)
+        cfg.principal_mapping = Some(mapping(0x1000_0000, 0x2000, MMPermissions::READ | MMPermissions::EXECUTE, Some("/old")));
     }
     if skip_unreferenced {
         cfg.skip_stacks_if_mapping_unreferenced = true;
-        cfg.principal_mapping_address = Some(kani::any());
+        // an address in no mapping of this target (its only mapping is [0x7000_0000, 0x7000_4000))
+        let a: usize = kani::any();
+        kani::assume(a < 0x7000_0000 || a >= 0x7000_4000);
+        cfg.principal_mapping_address = Some(a);
     }
     let init: [u8; DEST] = kani::any();
-    let start: u64 = kani::any();
-    kani::assume(start <= 4);
+    // the destination offset is concrete here (memcpy destination); symbolic offsets are C09's harnesses
+    let start: u64 = 3;
     let mut dest = ArrDest::<DEST>::new(init, start);
+    dest.memcpy = true;
     let res = cfg.dump(&mut dest);
     let img = match res {
         Ok(v) => v,
@@ -357,6 +363,9 @@ fn run(fail: [bool; 12], stale: bool, app_regions: usize, skip_unreferenced: boo
     assert_eq!(rd_u32(&img, ex_rva), 4243, "exception names the blamed thread");
     assert!(rd_u32(&img, ex_rva + 160) == 0 && rd_u32(&img, ex_rva + 164) == 0,
             "the (modelled) thread list recorded no crashing-thread context in this dump: the exception context is empty");
+    if skip_unreferenced {
+        assert!(cfg.principal_mapping.is_none(), "the principal mapping is resolved anew for every dump: an address in no mapping resolves to none");
+    }
     // ---- C09: the destination holds exactly the returned image
     let w: usize = kani::any();
     kani::assume(w < DEST);
@@ -409,6 +418,7 @@ fn run_crash(app_regions: usize) {
     }
     let init = [0u8; DEST];
     let mut dest = ArrDest::<DEST>::new(init, 0);
+    dest.memcpy = true;
     let at: usize = kani::any();
     dest.crash_at = at;
     let res = cfg.dump(&mut dest);
@@ -487,3 +497,227 @@ dump!(c11_dump_handles_fail, one(F_HANDLES), false, 0, false);
 dump!(c11_dump_init_error, one(F_INIT), false, 0, false);
 dump!(c11_dump_maps_limits_fail, two(F_MAPS, F_LIMITS), false, 0, false);
 dump!(c20_dump_principal_not_referenced, NONE, false, 0, true);
+dump!(c19_dump_reused_principal_mapping, NONE, true, 0, true);
+
+
+// =====================================================================================
+// Ghost skeleton (quick tier): as above, but DirSection::{write_to_file, dump_dir_entry} are
+// replaced by loggers, so no image or destination byte is ever read back (reading a ~600-byte
+// image costs > 30 min / 16 GB, see DESIGN.md 0.2).  What is decided here is generate_dump's own
+// logic: which entry is emitted when, with which type/location, while the target is stopped or
+// not, and what becomes a soft error.  That DirSection turns these calls into the right
+// destination bytes is C09/C10's DirSection harnesses.
+pub const LOGN: usize = 24;
+pub static mut WTF_N: usize = 0;
+pub static mut WTF_HAS: [bool; LOGN] = [false; LOGN];
+pub static mut WTF_TY: [u32; LOGN] = [0; LOGN];
+pub static mut WTF_SIZE: [u32; LOGN] = [0; LOGN];
+pub static mut WTF_RVA: [u32; LOGN] = [0; LOGN];
+pub static mut WTF_POS: [u64; LOGN] = [0; LOGN];
+pub static mut WTF_STOPPED: [bool; LOGN] = [false; LOGN];
+pub static mut DIRECT_ENTRY_CALLS: usize = 0;
+
+pub fn stub_write_to_file<'a, W: std::io::Write + std::io::Seek>(
+    _this: &mut crate::dir_section::DirSection<'a, W>,
+    buffer: &mut Buffer,
+    dirent: Option<MDRawDirectory>,
+) -> Result<(), crate::dir_section::FileWriterError>
+where
+    'a: 'a,
+{
+    unsafe {
+        let n = WTF_N;
+        assert!(n < LOGN);
+        WTF_POS[n] = buffer.position();
+        WTF_STOPPED[n] = STOPPED;
+        match dirent {
+            Some(d) => {
+                WTF_HAS[n] = true;
+                WTF_TY[n] = d.stream_type;
+                WTF_SIZE[n] = d.location.data_size;
+                WTF_RVA[n] = d.location.rva;
+            }
+            None => WTF_HAS[n] = false,
+        }
+        WTF_N = n + 1;
+    }
+    Ok(())
+}
+/// generate_dump must never emit an entry without flushing the stream it refers to
+pub fn stub_dump_dir_entry<'a, W: std::io::Write + std::io::Seek>(
+    _this: &mut crate::dir_section::DirSection<'a, W>,
+    _buffer: &mut Buffer,
+    _dirent: MDRawDirectory,
+) -> Result<(), crate::dir_section::FileWriterError>
+where
+    'a: 'a,
+{
+    unsafe { DIRECT_ENTRY_CALLS += 1 };
+    Ok(())
+}
+
+fn run_ghost(fail: [bool; 12], stale: bool, app_regions: usize, skip_unreferenced: bool) {
+    reset(fail);
+    unsafe {
+        WTF_N = 0;
+        DIRECT_ENTRY_CALLS = 0;
+    }
+    let mut cfg = MinidumpWriter::new(4242, 4243);
+    if app_regions == 1 {
+        cfg.app_memory.push(AppMemory { ptr: kani::any(), length: 8 });
+    }
+    if stale {
+        cfg.memory_blocks.push(MDMemoryDescriptor {
+            start_of_memory_range: kani::any(),
+            memory: MDLocationDescriptor { data_size: kani::any(), rva: kani::any() },
+        });
+        cfg.crashing_thread_context = CrashingThreadContext::CrashContext(MDLocationDescriptor { data_size: kani::any(), rva: kani::any() });
+        cfg.principal_mapping = Some(mapping(0x1000_0000, 0x2000, MMPermissions::READ | MMPermissions::EXECUTE, Some("/old")));
+    }
+    if skip_unreferenced {
+        cfg.skip_stacks_if_mapping_unreferenced = true;
+        let a: usize = kani::any();
+        kani::assume(a < 0x7000_0000 || a >= 0x7000_4000);
+        cfg.principal_mapping_address = Some(a);
+    }
+    let mut dest = ArrDest::<8>::new([0u8; 8], 0);
+    let res = cfg.dump(&mut dest);
+    let img_len = match res {
+        Ok(v) => {
+            let n = v.len();
+            core::mem::forget(v);
+            n
+        }
+        Err(e) => {
+            core::mem::forget(e);
+            panic!("dump failed although only best-effort steps failed");
+        }
+    };
+    // ---- C03 / C04: capture window and resume
+    unsafe {
+        assert_eq!(SUSPENDS, 1);
+        assert_eq!(RESUMES, 1, "threads are resumed exactly once");
+        assert!(!STOPPED, "nothing is left stopped when dump returns");
+        assert_eq!(SIGCONTS, 1, "the process is continued (dumper dropped)");
+        assert_eq!(READ_WHILE_RUNNING, 0, "every writer that reads target memory ran while the target was stopped");
+        assert!(SOFT_WRITTEN_AFTER_RESUME, "only the soft-error stream is produced after the resume");
+        assert_eq!(env::COPY_N, app_regions, "application memory read");
+        assert_eq!(DIRECT_ENTRY_CALLS, 0, "every directory entry is emitted together with a flush of its stream (never entry-only)");
+    }
+    // ---- C01(b): one flush for header + directory, one entry-less flush for application memory,
+    // 18 flushes with an entry, in the fixed order
+    unsafe {
+        assert_eq!(WTF_N, 2 + NSLOTS, "20 flushes: header, 18 streams, application memory");
+        assert!(!WTF_HAS[0], "first flush: header and empty directory, no entry");
+        assert_eq!(WTF_POS[0] as usize, 32 + 12 * NSLOTS, "header (32) + 18 directory slots flushed first");
+        assert!(!WTF_HAS[3], "application memory is flushed without an entry");
+        let mut slot = 0;
+        let mut nfailed = 0;
+        let mut end_prev = 32 + 12 * NSLOTS;
+        let mut k = 1;
+        while k < 2 + NSLOTS {
+            if k != 3 {
+                assert!(WTF_HAS[k]);
+                let (ty, size, rva) = (WTF_TY[k], WTF_SIZE[k] as usize, WTF_RVA[k] as usize);
+                if slot_failed(&fail, slot) {
+                    assert!(ty == 0 && size == 0 && rva == 0, "a failed best-effort stream gets an all-zero entry");
+                    nfailed += 1;
+                } else {
+                    assert_eq!(ty, TYPES[slot], "slot s holds the s-th stream of the fixed sequence (every type occurs once)");
+                    assert!(rva >= end_prev, "streams do not overlap each other, the header or the directory");
+                    assert!(rva + size <= WTF_POS[k] as usize, "the stream lies wholly inside what is flushed with its entry");
+                    end_prev = rva + size;
+                }
+                // everything but the soft-error stream is emitted while the target is stopped
+                assert_eq!(WTF_STOPPED[k], slot != NSLOTS - 1, "resume happens right before the soft-error stream, not earlier");
+                slot += 1;
+            }
+            k += 1;
+        }
+        assert_eq!(slot, NSLOTS);
+        assert_eq!(WTF_POS[1 + NSLOTS] as usize, img_len, "the last flush covers the whole returned image");
+        // ---- C11: soft errors
+        assert!(SOFT_N != usize::MAX, "the soft-error stream is always written");
+        let mut expect = nfailed;
+        if fail[F_INIT] {
+            expect += 1;
+        }
+        if skip_unreferenced {
+            expect += 1;
+        }
+        assert_eq!(SOFT_N, expect, "one soft error per failed best-effort step, none otherwise");
+        let mut idx = 0;
+        if fail[F_INIT] {
+            assert_eq!(SOFT_TAGS[idx], 1, "init failure reported under InitErrors");
+            idx += 1;
+        }
+        if skip_unreferenced {
+            assert_eq!(SOFT_TAGS[idx], 4, "PrincipalMappingNotReferenced reported");
+            idx += 1;
+        }
+        let order = [(6usize, 10u8), (7, 11), (8, 12), (9, 14), (10, 15), (11, 16), (12, 17), (13, 19), (14, 18), (16, 20)];
+        let mut j = 0;
+        while j < order.len() {
+            if slot_failed(&fail, order[j].0) {
+                assert_eq!(SOFT_TAGS[idx], order[j].1, "each failure is listed under the step it belongs to");
+                idx += 1;
+            }
+            j += 1;
+        }
+        // ---- C19: the memory list of THIS dump (entry #2 -> flush index 4) holds this dump's regions only
+        assert_eq!(WTF_TY[4], 5);
+        assert_eq!(WTF_SIZE[4] as usize, 4 + 16 * app_regions, "memory list holds exactly the regions registered during this dump");
+        assert_eq!(WTF_SIZE[5], 168, "exception stream");
+    }
+    assert_eq!(cfg.memory_blocks.len(), app_regions, "no region of an earlier dump is kept");
+    assert!(matches!(cfg.crashing_thread_context, CrashingThreadContext::None),
+            "the (modelled) thread list recorded no crashing-thread context in this dump, so none is used");
+    if skip_unreferenced {
+        assert!(cfg.principal_mapping.is_none(), "the principal mapping is resolved anew for every dump");
+    }
+    kani::cover!(true, "reached the end");
+    core::mem::forget(cfg);
+}
+
+macro_rules! ghost {
+    ($name:ident, $fail:expr, $stale:expr, $app:expr, $skip:expr) => {
+        #[kani::proof]
+        #[kani::unwind(24)]
+        #[kani::stub(crate::dir_section::DirSection::write_to_file, crate::verif::c19_dump::stub_write_to_file)]
+        #[kani::stub(crate::dir_section::DirSection::dump_dir_entry, crate::verif::c19_dump::stub_dump_dir_entry)]
+        #[kani::stub(crate::linux::ptrace_dumper::PtraceDumper::new_report_soft_errors, crate::verif::c19_dump::stub_new_dumper)]
+        #[kani::stub(crate::linux::ptrace_dumper::PtraceDumper::suspend_threads, crate::verif::c19_dump::stub_suspend)]
+        #[kani::stub(crate::linux::ptrace_dumper::PtraceDumper::resume_threads, crate::verif::c19_dump::stub_resume)]
+        #[kani::stub(nix::sys::signal::kill, crate::verif::c19_dump::stub_kill)]
+        #[kani::stub(crate::linux::sections::thread_list_stream::write, crate::verif::c19_dump::stub_thread_list)]
+        #[kani::stub(crate::linux::sections::mappings::write, crate::verif::c19_dump::stub_mappings)]
+        #[kani::stub(crate::linux::sections::systeminfo_stream::write, crate::verif::c19_dump::stub_systeminfo)]
+        #[kani::stub(crate::linux::sections::memory_info_list_stream::write, crate::verif::c19_dump::stub_meminfo)]
+        #[kani::stub(crate::linux::sections::thread_names_stream::write, crate::verif::c19_dump::stub_thread_names)]
+        #[kani::stub(crate::linux::sections::handle_data_stream::write, crate::verif::c19_dump::stub_handles)]
+        #[kani::stub(crate::linux::dso_debug::write_dso_debug_stream, crate::verif::c19_dump::stub_dso_debug)]
+        #[kani::stub(crate::linux::minidump_writer::MinidumpWriter::write_file, crate::verif::c19_dump::stub_write_file)]
+        #[kani::stub(crate::linux::minidump_writer::write_soft_errors, crate::verif::c19_dump::stub_soft_errors)]
+        #[kani::stub(crate::linux::ptrace_dumper::PtraceDumper::copy_from_process, crate::verif::env::stub_copy_from_process)]
+        #[kani::stub(std::time::SystemTime::now, crate::verif::c19_dump::stub_now)]
+        #[kani::stub(std::fmt::format, crate::verif::env::stub_format)]
+        #[kani::stub(std::vec::Vec::resize, crate::verif::env::stub_vec_resize)]
+        fn $name() {
+            run_ghost($fail, $stale, $app, $skip);
+        }
+    };
+}
+ghost!(g_dump_fresh, NONE, false, 1, false);
+ghost!(g_dump_reused_writer, NONE, true, 1, false);
+ghost!(g_dump_reused_principal_mapping, NONE, true, 0, true);
+ghost!(g_dump_all_best_effort_fail, ALL, false, 0, false);
+ghost!(g_dump_cpuinfo_fails, one(F_CPUINFO), false, 0, false);
+ghost!(g_dump_lsb_falls_back, one(F_LSB), false, 0, false);
+ghost!(g_dump_lsb_and_os_release_fail, two(F_LSB, F_OSREL), false, 0, false);
+ghost!(g_dump_dso_fails, one(F_DSO), false, 0, false);
+ghost!(g_dump_handles_fail, one(F_HANDLES), false, 0, false);
+ghost!(g_dump_init_error, one(F_INIT), false, 0, false);
+ghost!(g_dump_maps_limits_fail, two(F_MAPS, F_LIMITS), false, 0, false);
+ghost!(g_dump_status_cmdline_fail, two(F_STATUS, F_CMDLINE), false, 0, false);
+ghost!(g_dump_environ_auxv_fail, two(F_ENVIRON, F_AUXV), false, 0, false);
+ghost!(g_dump_principal_not_referenced, NONE, false, 0, true);
